@@ -426,35 +426,16 @@ end
 def countFlags (f : Bool × Bool × Bool) : Nat :=
   (if f.1 then 1 else 0) + (if f.2.1 then 1 else 0) + (if f.2.2 then 1 else 0)
 
-/-- `k == e` as CPython's set evaluates it for an entry `k` already in the set and a new element `e`
-    with the same hash (KGSym.__eq__ accepts only a KGSym; KGChar inherits str.__eq__, so a KGChar
-    already in the set swallows a KGSym or str with the same text, but not the other way round) -/
-def pyEqKey (k e : Node) : Bool :=
-  match k, e with
-  | .sym a, .sym b => a == b
-  | .str a, .str b => a == b
-  | .str a, .chr c => a == [c]
-  | .chr c, .str b => [c] == b
-  | .chr c, .chr d => c == d
-  | .chr c, .sym b => [c] == b
-  | .none, .none => true
-  | _, _ => false
-
-/-- the elements `set(args)` keeps, in insertion order -/
-def keptArgs : List Node → List Node → List Node
-  | [], kept => kept.reverse
-  | e :: es, kept => if kept.any (fun k => pyEqKey k e) then keptArgs es kept else keptArgs es (e :: kept)
-
-/-- `get_fn_arity(f)`: for a call of a non-reserved symbol the number of distinct
-    reserved symbols / holes among its arguments (`set(f.args)` raises TypeError for missing
-    or unhashable arguments), otherwise the number of distinct x, y, z mentioned -/
+/-- `get_fn_arity(f)`: for a call of a non-reserved symbol the number of distinct reserved
+    symbols / holes among its arguments (a missing argument list counts as one hole), otherwise
+    the number of distinct x, y, z mentioned.  (Total on the current tree; `Except` is kept for the
+    callers' error branch.) -/
 def fnArity (f : Node) : Except Err Nat :=
   match f with
   | .fn (.sym n) hasArgs args _ _ =>
     if !reservedNames.contains n then
-      if !hasArgs then .error .typeError
-      else if args.any Node.unhashable then .error .typeError
-      else .ok (countFlags (usedArgsL ((keptArgs args []).filter Node.isReserved)) + (if hasNone args then 1 else 0))
+      let as := if hasArgs then args else [.none]
+      .ok (countFlags (usedArgsL (as.filter Node.isReserved)) + (if hasNone as then 1 else 0))
     else .ok (countFlags (usedArgs f))
   | _ => .ok (countFlags (usedArgs f))
 
@@ -585,13 +566,9 @@ mutual
           if q.isNone then
             .ok (if cmatch t i1 delim then i1 + 1 else i1) acc.reverse m1 1
           else
-            let cont : Nat → Node → PState → Res (List Node) := fun i2 q2 m2 =>
-              let i3 := skip cfg t i2 true
-              if i < i3 then (readListLoop cfg t fuel delim i3 (q2 :: acc) m2).addSteps (i3 - i2 + 1)
-              else .spin 1
-            if q.isStr ['['] then
-              (readList cfg t fuel ']' i1 m1).bind fun i2 l m2 => cont i2 (.pylist l) m2
-            else cont i1 q m1
+            let i3 := skip cfg t i1 true
+            if i < i3 then (readListLoop cfg t fuel delim i3 (q :: acc) m1).addSteps (i3 - i1 + 1)
+            else .spin 1
       else .ok (if cmatch t i delim then i + 1 else i) acc.reverse m 1
 end
 
